@@ -63,24 +63,14 @@ def ids_unique_full : Prop :=
     (∀ m ∈ (run cs).ms, (rids (live m)).Nodup) ∧
     (∀ L ms, (run cs).ms = L :: ms → ∀ m ∈ (run cs).ms, ∀ r ∈ live m, r.rid < L.nextRowId)
 
-def calmFrom (h : Hist) : List Call → Bool
-  | [] => true
-  | c :: cs => calm h c && calmFrom (stepCall h c).1 cs
-
-theorem hinv_runFrom (h : Hist) (cs : List Call) (hi : HInv h) (hc : calmFrom h cs = true) : HInv (runFrom h cs) := by
-  induction cs generalizing h with
-  | nil => exact hi
-  | cons c cs ih =>
-    simp only [calmFrom, Bool.and_eq_true] at hc
-    exact ih _ (hinv_step h c hi hc.1) hc.2
-
-/-- **ids_unique**, for the histories covered so far -/
-theorem ids_unique_calm (cs : List Call) (hc : calmFrom Hist.empty cs = true) :
-    (∀ m ∈ (run cs).ms, (rids (live m)).Nodup) ∧
-    (∀ L ms, (run cs).ms = L :: ms → ∀ m ∈ (run cs).ms, ∀ r ∈ live m, r.rid < L.nextRowId) := by
-  have hi := (hinv_runFrom Hist.empty cs hinv_empty hc).inv
-  unfold run
-  generalize (runFrom Hist.empty cs).ms = ms at hi
+/-- **ids_unique.**  For EVERY history — any interleaving of create / append / overwrite / delete / update / merge_insert /
+compaction / restore through fresh handles and of append / delete / update / merge_insert through handles on arbitrary
+earlier versions (concurrent writers, committed in any order) — no two visible rows of any version share a row id, and
+`next_row_id` of the latest version exceeds every id ever assigned. -/
+theorem ids_unique : ids_unique_full := by
+  intro cs
+  have hi := (hinv_run cs).inv
+  generalize (run cs).ms = ms at hi
   cases ms with
   | nil => exact ⟨(by intro m hm; cases hm), (by intro L ms h; cases h)⟩
   | cons L ms =>
@@ -89,5 +79,284 @@ theorem ids_unique_calm (cs : List Call) (hc : calmFrom Hist.empty cs = true) :
     intro L' ms' he
     cases he
     exact hb
+
+/-- concurrent appends: two writers that have read the same version `v` of any history and append `a`, then `b` rows — both
+commit (when neither is refused), the second is rebased, and the id ranges they are given are consecutive and disjoint:
+`next_row_id` is re-read from the manifest the first one published -/
+theorem concurrent_appends_disjoint (cs : List Call) (v fa fb : Nat) (a b : List Row) (L : Manifest) (ms : List Manifest)
+    (hL : (run cs).ms = L :: ms) (h1 h2 : Hist)
+    (hs1 : stepCall (run cs) ⟨some v, .base (.append fa a)⟩ = (h1, .ok))
+    (hs2 : stepCall h1 ⟨some v, .base (.append fb b)⟩ = (h2, .ok)) :
+    ∃ L1 L2 rest, h2.ms = L2 :: L1 :: rest ∧ L1.nextRowId = L.nextRowId + a.length ∧
+      L2.nextRowId = L.nextRowId + a.length + b.length ∧
+      (live L2).Perm (live L ++ numberRows (L.version + 1) L.nextRowId a ++
+        numberRows (L.version + 2) (L.nextRowId + a.length) b) := by
+  have hi := hinv_run cs
+  have appendOnly : ∀ (h : Hist) (f : Nat) (rows : List Row) (L0 : Manifest) (T' : Txn),
+      ((∃ f' rows', Op.append f rows = .append f' rows' ∧ f' ≠ 0 ∧ T' = planAppend f' rows') ∨
+        (CommitFacts L0 T' ∧ ∃ mv T, mv ∈ h.ms ∧ planOf (.append f rows) mv = some T ∧ T.kind ≠ .append ∧
+          T'.kind = T.kind ∧ T'.fresh = T.fresh)) → f ≠ 0 ∧ T' = planAppend f rows := by
+    intro h f rows L0 T' hc
+    rcases hc with ⟨f', rows', he, hf', hT⟩ | ⟨_, mv, T, _, hp, hk, _⟩
+    · cases he
+      exact ⟨hf', hT⟩
+    · simp only [planOf, Option.some.injEq] at hp
+      subst hp
+      exact absurd rfl hk
+  have livePush : ∀ (M : Manifest) (f : Nat) (rows : List Row), f ≠ 0 →
+      (live (buildOn M (planAppend f rows))).Perm (live M ++ numberRows (M.version + 1) M.nextRowId rows) := by
+    intro M f rows hf
+    unfold buildOn planAppend
+    simp only
+    refine (live_nextManifest _ _ _).trans ?_
+    rw [liveOf_append, live_writtenFrags _ _ _ _ hf]
+    exact List.Perm.refl _
+  simp only [stepCall] at hs1 hs2
+  -- first commit
+  rcases commitStale_spec (run cs) v (.append fa a) hi with ⟨_, hne⟩ | ⟨La, msa, Ta, hmsa, heqa, hca⟩
+  · rw [hs1] at hne; exact absurd rfl hne
+  rw [hL] at hmsa
+  cases hmsa
+  obtain ⟨hfa, rfl⟩ := appendOnly _ _ _ _ _ hca
+  rw [heqa] at hs1
+  cases hs1
+  have hi1 := hinv_commitStale (run cs) v (.append fa a) hi
+  rw [heqa] at hi1
+  -- second commit
+  rcases commitStale_spec _ v (.append fb b) hi1 with ⟨_, hne⟩ | ⟨Lb, msb, Tb, hmsb, heqb, hcb⟩
+  · rw [hs2] at hne; exact absurd rfl hne
+  simp only at hmsb
+  cases hmsb
+  obtain ⟨hfb, rfl⟩ := appendOnly _ _ _ _ _ hcb
+  rw [heqb] at hs2
+  cases hs2
+  refine ⟨_, _, _, by rw [hL], ?_, ?_, ?_⟩
+  · simp [buildOn, planAppend, nextManifest]
+  · simp [buildOn, planAppend, nextManifest]
+  · refine (livePush _ fb b hfb).trans ?_
+    have hv : (buildOn L (planAppend fa a)).version + 1 = L.version + 2 := by simp [buildOn, planAppend, nextManifest]
+    have hn : (buildOn L (planAppend fa a)).nextRowId = L.nextRowId + a.length := by
+      simp [buildOn, planAppend, nextManifest]
+    rw [hv, hn]
+    exact List.Perm.append_right _ (livePush L fa a hfa)
+
+/-! ## 3. a row keeps its row id through updates, merge_insert updates and compaction -/
+
+/-- the operations that are to keep every row -/
+def keeps : Op → Bool
+  | .update _ _ => true
+  | .upsert _ => true
+  | .compact _ _ => true
+  | _ => false
+
+/-- **ids_stable.**  After any history, an update, a merge_insert (full or partial source schema) or a compaction — through a
+fresh handle or, for update / merge_insert, through a handle on any earlier version, i.e. concurrently with whatever was
+committed since — that succeeds publishes a version whose (key, row id) association is the previous latest one, as a
+multiset, plus pairs with brand-new ids (the rows a merge_insert inserts): no row changes its id, none is lost, no id moves
+to another key. -/
+theorem ids_stable (cs : List Call) (c : Call) (op : Op) (hop : c.op = .base op) (hk : keeps op = true)
+    (L : Manifest) (ms : List Manifest) (hL : (run cs).ms = L :: ms) (hok : (stepCall (run cs) c).2 = .ok) :
+    ∃ L' ms' F, (stepCall (run cs) c).1.ms = L' :: ms' ∧ (pairs L').Perm (pairs L ++ F) ∧ ∀ p ∈ F, L.nextRowId ≤ p.2 := by
+  have hi := hinv_run cs
+  have viaC : ∀ v, (commitStale (run cs) v op).2 = .ok →
+      ∃ L' ms' F, (commitStale (run cs) v op).1.ms = L' :: ms' ∧ (pairs L').Perm (pairs L ++ F) ∧
+        ∀ p ∈ F, L.nextRowId ≤ p.2 := by
+    intro v hok
+    rcases commitStale_spec (run cs) v op hi with ⟨_, hne⟩ | ⟨L0, ms0, T', hms0, heq, hcase⟩
+    · exact absurd hok hne
+    · rw [hL] at hms0
+      cases hms0
+      rw [heq]
+      rcases hcase with ⟨f, rows, hopa, _, _⟩ | ⟨hfacts, mv, T, _, hp, _, hkk, _⟩
+      · subst hopa; cases hk
+      · have hku : T'.kind = .update := by
+          rw [hkk]
+          cases op with
+          | update p y => simp only [planOf, Option.some.injEq] at hp; subst hp; rfl
+          | upsert rows =>
+            simp only [planOf] at hp
+            split at hp
+            · simp only [Option.some.injEq] at hp; subst hp; rfl
+            · cases hp
+          | compact t mat => simp [planOf] at hp
+          | _ => cases hk
+        exact ⟨_, _, _, rfl, commit_pairs hfacts hku, krs_inserted_fresh _ _ _ _ _⟩
+  unfold stepCall at hok ⊢
+  rw [hop] at hok ⊢
+  generalize c.rv = rv at hok ⊢
+  cases rv with
+  | some v => exact viaC v hok
+  | none =>
+    simp only at hok ⊢
+    by_cases hvc : viaCommit (run cs) op = true
+    · rw [if_pos hvc] at hok ⊢
+      exact viaC _ hok
+    · rw [if_neg hvc] at hok ⊢
+      have hvc' : viaCommit (run cs) op = false := by simpa using hvc
+      unfold seqStep
+      rw [hL]
+      simp only
+      have hokL := hi.frag L (hL ▸ List.mem_cons_self ..)
+      apply seq_pairs L ms op hokL
+      cases op with
+      | compact t mat => exact Or.inl ⟨t, mat, rfl⟩
+      | upsert rows =>
+        right
+        refine ⟨rows, rfl, ?_⟩
+        intro hw
+        simp [viaCommit, hL, hw] at hvc'
+      | update p y => simp [viaCommit, hL] at hvc'
+      | _ => cases hk
+
+/-- the same in the words of the property: if keys identify rows in the new version, the row with a given key has the row id
+it had before -/
+theorem ids_stable_key (cs : List Call) (c : Call) (op : Op) (hop : c.op = .base op) (hk : keeps op = true)
+    (L : Manifest) (ms : List Manifest) (hL : (run cs).ms = L :: ms) (hok : (stepCall (run cs) c).2 = .ok) :
+    ∃ L' ms', (stepCall (run cs) c).1.ms = L' :: ms' ∧
+      (((pairs L').map (·.1)).Nodup → ∀ r ∈ live L, ∀ r' ∈ live L', keyOf r'.cells = keyOf r.cells → r'.rid = r.rid) := by
+  obtain ⟨L', ms', F, hms', hperm, _⟩ := ids_stable cs c op hop hk L ms hL hok
+  refine ⟨L', ms', hms', ?_⟩
+  intro hnd r hr r' hr' hkey
+  have h1 : (keyOf r.cells, r.rid) ∈ pairs L' :=
+    hperm.mem_iff.mpr (List.mem_append_left _ (List.mem_map.mpr ⟨r, hr, rfl⟩))
+  have h2 : (keyOf r'.cells, r'.rid) ∈ pairs L' := List.mem_map.mpr ⟨r', hr', rfl⟩
+  have := inj_of_nodup_map (fun p : Cell × Nat => p.1) hnd h2 h1 hkey
+  exact congrArg Prod.snd this
+
+/-! ## 4. looking a live row id up returns that row's current values -/
+
+/-- **lookup_current.**  In every version `m` of every history, the row id index built from the version's fragment layout
+(`RowIdIndex::new` over fragment id, row id sequence — in whatever segment encodings `enc` the writers chose — and deletion
+vector; C34 `index_faithful`) resolves the id of every visible row to the address at which the scan reports that row, the row
+stored at that address is that row with its current values, and every other id — deleted, overwritten, never assigned —
+resolves to nothing.  Size hypotheses: ids fit `u64`, fragment ids and offsets fit `u32`. -/
+theorem lookup_current (cs : List Call) (L : Manifest) (ms : List Manifest) (hL : (run cs).ms = L :: ms)
+    (m : Manifest) (hm : m ∈ (run cs).ms) (hnext : L.nextRowId ≤ C34.U64MAX)
+    (hs : ∀ f ∈ m.frags, f.id < 4294967296 ∧ f.rows.length ≤ 4294967296)
+    (enc : List Nat → C34.Seq)
+    (henc : ∀ f ∈ m.frags, C34.Seq.WF (enc (f.rows.map (·.rid))) ∧
+      C34.Seq.toList (enc (f.rows.map (·.rid))) = f.rows.map (·.rid)) :
+    ∃ ix, C34.indexNew (layout enc m) = some ix ∧
+      (∀ x ∈ liveTagged m.frags, C34.indexGet ix x.2.rid = some (addrOf x.1) ∧ rowAt m (addrOf x.1) = some x.2) ∧
+      (∀ id, id ∉ rids (live m) → C34.indexGet ix id = none) := by
+  have hi := hinv_run cs
+  have hokm := hi.frag m hm
+  have hinv := hi.inv
+  rw [hL] at hinv hm
+  obtain ⟨_, hb, hn⟩ := hinv
+  have hlp := livePairs_layout enc m (fun f hf => (henc f hf).2)
+  have hfst : (C34.livePairs (layout enc m)).map Prod.fst = rids (live m) := by
+    rw [hlp, live, liveOf_eq]
+    simp [rids, List.map_map, Function.comp_def]
+  obtain ⟨ix, hix, hget, hnone⟩ := C34.index_faithful (layout enc m)
+    (by
+      intro f hf
+      obtain ⟨g, hg, rfl⟩ := List.mem_map.mp hf
+      exact (henc g hg).1)
+    (by rw [hfst]; exact hn m hm)
+    (by
+      rw [hlp, List.map_map]
+      have hnd : (liveTagged m.frags).Nodup := (tagged_pairs_nodup hokm.1).sublist List.filter_sublist
+      have hinj : ∀ x ∈ liveTagged m.frags, ∀ y ∈ liveTagged m.frags,
+          (Prod.snd ∘ fun x : TRow => (x.2.rid, addrOf x.1)) x = (Prod.snd ∘ fun x : TRow => (x.2.rid, addrOf x.1)) y → x = y := by
+        intro x hx y hy he
+        have hx' := (List.mem_filter.mp hx).1
+        have hy' := (List.mem_filter.mp hy).1
+        exact tagged_inj hokm.1 hx' hy' (addrOf_inj hs hx' hy' he)
+      generalize liveTagged m.frags = l at hnd hinj
+      induction l with
+      | nil => simp
+      | cons a t ih =>
+        simp only [List.map_cons, List.nodup_cons] at hnd ⊢
+        refine ⟨?_, ih hnd.2 (fun x hx y hy => hinj x (List.mem_cons_of_mem _ hx) y (List.mem_cons_of_mem _ hy))⟩
+        intro hmem
+        obtain ⟨y, hy, he⟩ := List.mem_map.mp hmem
+        have := hinj y (List.mem_cons_of_mem _ hy) a (List.mem_cons_self ..) he
+        subst this
+        exact hnd.1 hy)
+    (by
+      intro p hp
+      rw [hlp] at hp
+      obtain ⟨x, hx, rfl⟩ := List.mem_map.mp hp
+      have hx' := (List.mem_filter.mp hx).1
+      obtain ⟨f, hf, hxf⟩ := mem_tagged.mp hx'
+      have a1 := tagRows_fst hxf
+      have b1 := hs f hf
+      have hrid : x.2.rid < L.nextRowId := by
+        apply hb m hm
+        rw [live, liveOf_eq]
+        exact List.mem_map.mpr ⟨x, hx, rfl⟩
+      refine ⟨by simp only; omega, ?_⟩
+      simp only [addrOf, C34.U64MAX]
+      rw [a1.1]
+      omega)
+  refine ⟨ix, hix, ?_, ?_⟩
+  · intro x hx
+    refine ⟨hget x.2.rid (addrOf x.1) (by rw [hlp]; exact List.mem_map.mpr ⟨x, hx, rfl⟩), ?_⟩
+    exact rowAt_tagged hokm hs (List.mem_filter.mp hx).1
+  · intro id hid
+    apply hnone
+    rw [hfst]
+    exact hid
+
+/-! ## non-vacuity -/
+
+/-- a history with concurrent writers: two updates and an append through handles on version 1 (the second update is rebased
+over the first: the deletion vectors of fragment 0 are merged, which empties and removes it), a merge_insert through a
+handle on version 2, a stale update that is refused, a compaction, a restore and a delete through a handle on version 8 -/
+def exampleHistory : List Call :=
+  [⟨none, .base (.create 2 2 [[some 1, some 10], [some 2, some 20], [some 3, some 30]])⟩,
+   ⟨some 1, .base (.update (.isIn [2]) 7)⟩,
+   ⟨some 1, .base (.update (.isIn [1]) 8)⟩,
+   ⟨some 1, .base (.append 5 [[some 4, some 40]])⟩,
+   ⟨some 2, .base (.upsert [[some 3, some 33], [some 9, some 90]])⟩,
+   ⟨some 1, .base (.update (.isIn [2]) 9)⟩,
+   ⟨none, .base (.compact 10 true)⟩,
+   ⟨none, .restore 2⟩,
+   ⟨some 8, .base (.delete (.isIn [3]))⟩]
+
+set_option maxRecDepth 8000 in
+example : ((run exampleHistory).ms.map fun m => (m.version, m.nextRowId, pairs m)) =
+    [(9, 5, [(some 1, 0), (some 2, 1)]),
+     (8, 5, [(some 1, 0), (some 3, 2), (some 2, 1)]),
+     (7, 5, [(some 2, 1), (some 1, 0), (some 4, 3), (some 3, 2), (some 9, 4)]),
+     (6, 5, [(some 2, 1), (some 1, 0), (some 4, 3), (some 3, 2), (some 9, 4)]),
+     (5, 5, [(some 2, 1), (some 1, 0), (some 4, 3), (some 3, 2), (some 9, 4)]),
+     (4, 4, [(some 3, 2), (some 2, 1), (some 1, 0), (some 4, 3)]),
+     (3, 3, [(some 3, 2), (some 2, 1), (some 1, 0)]),
+     (2, 3, [(some 1, 0), (some 3, 2), (some 2, 1)]),
+     (1, 3, [(some 1, 0), (some 2, 1), (some 3, 2)])] := by decide
+
+-- the rebased second update merged the deletion vectors of fragment 0 and removed it; the stale update of the same row is
+-- refused
+set_option maxRecDepth 8000 in
+example : ((run (exampleHistory.take 3)).feet.head?.map fun f => (f.upd, f.rem)) = some ([0], [0]) ∧
+    (stepCall (run (exampleHistory.take 5)) ⟨some 1, .base (.update (.isIn [2]) 9)⟩).2 = .err "conflict_retryable" := by
+  decide
+
+-- hypotheses of `ids_stable` / `ids_stable_key` on the example: the merge_insert through the handle on version 2 succeeds
+set_option maxRecDepth 8000 in
+example : (stepCall (run (exampleHistory.take 4)) ⟨some 2, .base (.upsert [[some 3, some 33], [some 9, some 90]])⟩).2 = .ok ∧
+    keeps (.upsert [[some 3, some 33], [some 9, some 90]]) = true := by decide
+
+/-- an encoding satisfying the hypothesis of `lookup_current` for every fragment: one `Array` segment -/
+def encArray (l : List Nat) : C34.Seq := if l = [] then [] else [C34.Seg.array l]
+
+theorem encArray_ok (l : List Nat) : C34.Seq.WF (encArray l) ∧ C34.Seq.toList (encArray l) = l := by
+  unfold encArray
+  by_cases h : l = []
+  · subst h
+    exact ⟨(by intro s hs; cases hs), rfl⟩
+  · rw [if_neg h]
+    refine ⟨?_, by simp [C34.Seq.toList, C34.Seg.toList]⟩
+    intro s hs
+    rw [List.mem_singleton.mp hs]
+    exact h
+
+-- the index of the example's latest version: live ids resolve, the deleted id 2 and the never-visible id 7 do not
+set_option maxRecDepth 8000 in
+example : ((run exampleHistory).ms.head?.bind fun m => (C34.indexNew (layout encArray m)).map fun ix =>
+    [C34.indexGet ix 0, C34.indexGet ix 1, C34.indexGet ix 2, C34.indexGet ix 7]) =
+    some [some 0, some 8589934592, none, none] := by decide
 
 end LanceModel.C18
